@@ -37,26 +37,27 @@ def run(F, R):
         idx_e = k9.kexpr(f, c.args[4])
         R.check(idx_e.endswith(".shard_index"), "C14.R1", "execute_fragment:shard_index-from-request", f"shard index is {idx_e}", f.loc(c.bb), nontrivial=False)
 
-    # ---- R2
-    g = F.fn(CO + "::shard_context")
-    acc = [(bb, a) for bb, a, fld, adt, line in g.field_accesses() if (fld, adt) == ("per_node", "distributed::splits::Assignment")]
-    R.floor("C14.R2", "reads of Assignment.per_node in shard_context", len(acc), 1)
-    for c in g.calls():
-        last = c.name.rsplit("::", 1)[-1]
-        if last in ("index", "index_mut", "get_unchecked") and derives_from(g, [c.args[0]], lambda k, x: (k == "place" and ("per_node", "distributed::splits::Assignment") in place_fields(x)) or None):
-            R.bad("C14.R2", "shard_context:unchecked-index", "assignment.per_node indexed without a range check", g.loc(c.bb))
-    gets = [c for c in g.calls() if c.name.rsplit("::", 1)[-1] == "get" and derives_from(g, [c.args[0]], lambda k, x: (k == "place" and ("per_node", "distributed::splits::Assignment") in place_fields(x)) or None)]
-    R.floor("C14.R2", "checked get on per_node", len(gets), 1)
-    for c in gets:
-        tags = result_consumers(g, c)
-        viaok = [t for t in tags if t.startswith("method:ok_or")]
-        # follow ok_or_else result
-        ok = False
-        for u in uses_of_local(g, place_local(c.dest)):
-            if u[0] == "call" and u[1].name.rsplit("::", 1)[-1] in ("ok_or_else", "ok_or"):
-                ok = "try" in result_consumers(g, u[1])
-        idx = origin(g, c.args[1])
-        R.check(ok and idx[0] == "arg", "C14.R2", "shard_context:get->ok_or->?", f"out-of-range shard index is not turned into a propagated error ({sorted(tags)})", g.loc(c.bb), dict(consumers=sorted(tags)))
+    # ---- R2: every access to Assignment.per_node reachable from shard_context must turn an out-of-range index into Err
+    PN = ("per_node", "distributed::splits::Assignment")
+    clo = F.closure_of([CO + "::shard_context"], depth=3)
+    touching = {x.path for x in F.fns_touching(*PN)}
+    sites = []
+    for p in sorted(clo):
+        for g in F.family(p):
+            if g.path not in touching:
+                continue
+            for c in g.calls():
+                last = c.name.rsplit("::", 1)[-1]
+                if last in ("get", "index", "index_mut", "get_unchecked", "get_mut", "first", "last", "nth") and c.args and \
+                        derives_from(g, [c.args[0]], lambda k, x: (k == "place" and PN in place_fields(x)) or None):
+                    sites.append((g, c, last))
+    R.floor("C14.R2", "indexed accesses to Assignment.per_node reachable from shard_context", len(sites), 1)
+    for g, c, last in sites:
+        key = f"{F.bodies[g.path]['name'] or g.path}:{last}"
+        if last in ("index", "index_mut", "get_unchecked"):
+            R.bad("C14.R2", key + ":unchecked-index", "assignment.per_node indexed without a range check", g.loc(c.bb)); continue
+        ok, why = _checked(F, g, c, depth=0)
+        R.check(ok, "C14.R2", key + "->ok_or->?", why, g.loc(c.bb), dict(site=str(c)))
 
     # ---- R3
     h = "distributed::server::fragment"
@@ -75,3 +76,50 @@ def run(F, R):
     callers = {c.fn.path for c in F.callers_of(CO + "::shard_context")}
     # the initiator's own empty-table branch (scatter_sql_over_table) shards the set it enumerated itself; no other caller
     R.check(callers <= {f.path, CO + "::scatter_sql_over_table::{closure#0}"} and f.path in callers, "C14.R3", "shard_context:callers", f"shard_context called from {sorted(callers)}", "", nontrivial=False)
+
+
+DEFAULTING = ("unwrap_or", "unwrap_or_default", "unwrap_or_else", "map_or", "map_or_else", "is_some", "is_none", "is_some_and")
+
+
+def _checked(F, g, c, depth):
+    """the Option produced by call c (in g) ends in ok_or*(..)? ; if g hands it to its caller, follow the callers inside the crate"""
+    tags = result_consumers(g, c)
+    meth = {t.split(":", 1)[1] for t in tags if t.startswith("method:")}
+    if meth & set(DEFAULTING):
+        return False, f"an out-of-range shard index is defaulted ({sorted(meth & set(DEFAULTING))}) instead of refused: the fragment would run over an empty shard"
+    for u in uses_of_local(g, place_local(c.dest)):
+        if u[0] == "call" and u[1].name.rsplit("::", 1)[-1] in ("ok_or_else", "ok_or"):
+            if "try" in result_consumers(g, u[1]) or "returned" in result_consumers(g, u[1]):
+                return True, ""
+    # transparent adaptors (map/copied/cloned/as_deref...) then ok_or
+    work = [place_local(c.dest)]
+    seen = set()
+    while work:
+        l = work.pop()
+        if l in seen:
+            continue
+        seen.add(l)
+        for u in uses_of_local(g, l):
+            if u[0] == "call":
+                nm = u[1].name.rsplit("::", 1)[-1]
+                if nm in ("ok_or_else", "ok_or"):
+                    t2 = result_consumers(g, u[1])
+                    if "try" in t2 or "returned" in t2:
+                        return True, ""
+                elif nm in ("map", "copied", "cloned", "as_deref", "as_ref", "and_then", "filter") and "Option" in u[1].self_ty:
+                    work.append(place_local(u[1].dest))
+                elif nm in DEFAULTING:
+                    return False, f"an out-of-range shard index is defaulted ({nm}) instead of refused"
+            elif u[0] == "stmt" and "|" not in u[2]:
+                work.append(place_local(u[2]))
+            elif u[0] == "ret" and depth < 2:
+                root = F.bodies[g.path].get("root") or g.path
+                callers = F.callers_of(root)
+                if not callers:
+                    return False, "Option escapes to unknown callers"
+                for cc in callers:
+                    ok, why = _checked(F, cc.fn, cc, depth + 1)
+                    if not ok:
+                        return False, why
+                return True, ""
+    return False, f"out-of-range shard index is not turned into a propagated error ({sorted(tags)})"
